@@ -22,8 +22,11 @@ def sbools(l):
 
 
 def mk(v, l):
-    """a Bitset with exactly this (value, length) pair, bypassing constructor checks"""
+    """a Bitset with exactly this (value, length) pair: through the public constructor whenever the pair is one the
+    constructor can produce (so that whatever the constructor sets up internally is set up), by assignment otherwise"""
     from toolkit.bits import Bitset
+    if l > 0 and 0 <= v < (1 << l):
+        return Bitset(v, l)
     b = Bitset(0, 0)
     b.value, b.length = v, l
     return b
@@ -80,6 +83,31 @@ def gen(ctx):
         add(f"bits concat {v1} {l1} {v2} {l2}", lambda: call(lambda: a() + b(), sb))
         add(f"bits eq {v1} {l1} {v2} {l2}", lambda: call(lambda: a() == b(), lambda x: "1" if x else "0"))
 
+    def chained(v1, l1, v2, l2, k):
+        """the RESULT OBJECT of one operation is the operand of the next: the model sees its (value, length), the
+        implementation the object itself with whatever it carries inside"""
+        firsts = [lambda a, b: a & b, lambda a, b: a | b, lambda a, b: a ^ b, lambda a, b: a + b, lambda a, b: ~a,
+                  lambda a, b: a >> k, lambda a, b: a << k, lambda a, b: a.get_higher_bits(min(k, len(a))),
+                  lambda a, b: a.get_lower_bits(min(k, len(a))), lambda a, b: bits_utils.half_bits(a)[0],
+                  lambda a, b: bits_utils.half_bits_not_padding(a)[1], lambda a, b: Bitset.from_sequence(list(a))]
+        for f1 in firsts:
+            try:
+                x = f1(mk(v1, l1), mk(v2, l2))
+                xv, xl = int(x), len(x)
+            except Exception:
+                continue
+            k2 = rng.choice([0, 1, xl // 2, xl]) if xl else 0
+            add(f"bits invert {xv} {xl}", lambda x=x: call(lambda: ~x, sb))
+            add(f"bits shl {xv} {xl} {k2}", lambda x=x, k2=k2: call(lambda: x << k2, sb))
+            add(f"bits shr {xv} {xl} {k2}", lambda x=x, k2=k2: call(lambda: x >> k2, sb))
+            add(f"bits lower {xv} {xl} {k2}", lambda x=x, k2=k2: call(lambda: x.get_lower_bits(k2), sb))
+            add(f"bits higher {xv} {xl} {k2}", lambda x=x, k2=k2: call(lambda: x.get_higher_bits(k2), sb))
+            add(f"bits bytes {xv} {xl}", lambda x=x: call(lambda: bytes(x), hx))
+            add(f"bits str {xv} {xl}", lambda x=x: call(lambda: str(x), lambda s: s or "."))
+            add(f"bits half {xv} {xl}", lambda x=x: call(lambda: bits_utils.half_bits(x), lambda p: sb(p[0]) + " " + sb(p[1])))
+            add(f"bits xor {xv} {xl} {v2} {l2}", lambda x=x: call(lambda: x ^ mk(v2, l2), sb))
+            add(f"bits or {v2} {l2} {xv} {xl}", lambda x=x: call(lambda: mk(v2, l2) | x, sb))
+
     def ctor(v, l):
         add(f"bits mk {v} {l}", lambda: call(lambda: Bitset(v, l), sb))
         nb = max((v.bit_length() + 7) // 8, 0) + rng.choice([0, 0, 1])
@@ -107,6 +135,13 @@ def gen(ctx):
         for (v2, l2) in sm2:
             binary(v1, l1, v2, l2)
     n_exh = len(cases)
+    # two-step expressions: small operands (values with leading zero bits, zero operands of every width) and random ones
+    for (v1, l1) in [(0b0011, 4), (0, 3), (1, 6), (0b101, 3), (0, 0), (1, 1)]:
+        for (v2, l2) in [(0b0101, 4), (0, 8), (0, 0), (0b11, 2)]:
+            chained(v1, l1, v2, l2, 2)
+    for _ in range(ctx.pick(40, 1500)):
+        l1 = rng.randint(0, 70); l2 = rng.choice([l1, rng.randint(0, 70)])
+        chained(rng.choice(interesting_values(rng, l1)), l1, rng.choice(interesting_values(rng, l2) + [0]), l2, rng.randint(0, l1 + 1))
     # boundary + random values up to 300 bits
     n = ctx.pick(600, 25000)
     for _ in range(n):
@@ -240,6 +275,8 @@ def correspond(ctx):
     impl = [c[1]() for c in cases]
     model = ctx.driver.batch(lines)
     compare(res, lines, impl, model)
+    del _DISAGREE[:]
+    _DISAGREE.extend((l, a) for l, a, m in zip(lines, impl, model) if a != m)
     res.evaluations += len(lines)
     res.rule = (f"exhaustive: every (value,length) with length <= {ctx.pick(6, 8)} x every unary op, every shift/higher/lower amount "
                 f"-1..len+1, every index, a slice grid; every pair of bit strings of length <= {ctx.pick(4, 5)} x every binary op "
@@ -257,8 +294,69 @@ def correspond(ctx):
     return res
 
 
+def ref_answer(line):
+    """the answer the plain list-of-bits model gives to a request line (None where this evaluator does not commit itself:
+    ill-formed operands and requests the model refuses)"""
+    w = line.split(" ")
+    op, a = w[1], w[2:]
+
+    def B(v, l):
+        v, l = int(v), int(l)
+        return bits_of(v, l) if 0 <= v < (1 << l) or (v == 0 and l == 0) else None
+
+    def S(bits):
+        return f"{val_of(bits)} {len(bits)}"
+    try:
+        if op in ("invert", "int", "bytes", "str", "iter", "half", "halfnp"):
+            X = B(a[0], a[1])
+            if X is None:
+                return None
+            n = len(X); h = (n + 1) // 2
+            return {"invert": lambda: "ok " + S([not x for x in X]), "int": lambda: f"ok {val_of(X)}",
+                    "bytes": lambda: "ok " + hx(val_of(X).to_bytes((n + 7) // 8, "big")),
+                    "str": lambda: "ok " + (sbools(X) if X else "."), "iter": lambda: "ok " + sbools(X),
+                    "half": lambda: "ok " + S([False] * (h - (n - h)) + X[:n - h]) + " " + S(X[n - h:]),
+                    "halfnp": lambda: "ok " + S(X[:n - h]) + " " + S(X[n - h:])}[op]()
+        if op in ("shl", "shr", "higher", "lower"):
+            X = B(a[0], a[1]); k = int(a[2])
+            if X is None or k < 0 or (op in ("higher", "lower") and k > len(X)):
+                return None
+            n = len(X)
+            return "ok " + S({"shl": (X + [False] * k)[k:] if k <= n else [False] * n, "shr": ([False] * k + X)[:n],
+                              "higher": X[:k], "lower": X[n - k:] if k else []}[op])
+        if op in ("and", "or", "xor", "concat", "eq"):
+            X, Y = B(a[0], a[1]), B(a[2], a[3])
+            if X is None or Y is None:
+                return None
+            m = max(len(X), len(Y)); PX, PY = [False] * (m - len(X)) + X, [False] * (m - len(Y)) + Y
+            if op == "concat":
+                return "ok " + S(X + Y)
+            if op == "eq":
+                return "ok " + ("1" if (a[0], a[1]) == (a[2], a[3]) else "0")
+            f = {"and": lambda x, y: x and y, "or": lambda x, y: x or y, "xor": lambda x, y: x != y}[op]
+            return "ok " + S([f(x, y) for x, y in zip(PX, PY)])
+    except Exception:
+        return None
+    return None
+
+
+_DISAGREE = []      # (request line, implementation's answer) where model and implementation disagreed
+
+
 def search(ctx, broken, res0):
     res = Result()
+    # first: the very requests on which the model and the implementation disagreed, against the list-of-bits reference
+    for line, ans in _DISAGREE[:400]:
+        exp = ref_answer(line)
+        if exp is not None and ans != exp:
+            res.violations.append({"signature": "bit-string operation differs from the list-of-bits model: " + line.split(" ")[1],
+                                   "what": f"request '{line}': implementation answers '{ans[:80]}', the bit-list model '{exp[:80]}'"
+                                           " (operands given as value length; where the request came from a two-step expression the"
+                                           " operand was the result object of the first step)",
+                                   "input": {"request": line, "implementation": ans, "reference": exp}})
+            break
+    if res.violations:
+        return res
     ctx.tier = "thorough"
     return oracle(ctx, res)
 
@@ -268,6 +366,15 @@ def replay(ctx, rp):
     inp = rp.get("input", {})
     v = inp.get("value", 0)
     out = {"input": inp}
+    if "request" in inp:
+        # re-run the generator deterministically (same seed) and look the request up; fall back to the recorded answers
+        cases, _ = gen(ctx)
+        now = [f() for (l, f) in cases if l == inp["request"]]
+        exp = ref_answer(inp["request"])
+        out["implementation_now"] = now[:3]
+        out["reference"] = exp
+        out["holds"] = bool(now) and all(a == exp for a in now)
+        return out
     if "length" not in inp:
         out["len(Bitset(v))"] = len(Bitset(v)); out["bit_length"] = v.bit_length()
         out["holds"] = len(Bitset(v)) == v.bit_length()
